@@ -271,7 +271,7 @@ theorem C11.group_exposing_filtered (requested supported : List String) (gf : Li
 /-
 Full statement (FALSE of the code): for every parsed filter and typed column
   ArrowSem.doFilter raw ct rows = PandasSem.doFilter raw strIndex ct rows = PyDict.doFilter raw rows.
-Counterexamples: `regex_arrow_differs_witness`, `pandas_default_index_witness`, `isin_null_pandas_differs_witness`,
+Counterexamples: `regex_arrow_differs_witness`, `isin_null_pandas_differs_witness`,
 `isin_untyped_arrow_witness`.
 -/
 
@@ -361,9 +361,9 @@ theorem C11.arrow_eq_spec_partial (raw : RawFilter) (f : Filter) (ct : ColClass)
 theorem C11.pandas_eq_spec_partial (raw : RawFilter) (f : Filter) (ct : ColClass) (rows : List Row)
     (hp : raw.parse = .ok f) (hh : homog ct raw.col rows = true) (hg : agreeGuard ct f = true)
     (hs : ∀ v, raw.values ≠ .scalar v) :
-    PandasSem.doFilter raw false ct rows = .ok (rows.filter (fun r => sat f (r.get raw.col))) := by
+    PandasSem.run raw ct rows = .ok (rows.filter (fun r => sat f (r.get raw.col))) := by
   unfold RawFilter.parse at hp
-  unfold PandasSem.doFilter
+  unfold PandasSem.run PandasSem.doFilter
   simp only [hh, Bool.not_true, Bool.false_eq_true, if_false]
   cases hd : filterDispatch raw.ftype <;> simp only [hd] at hp ⊢
   · unfold PandasSem.doRange
@@ -431,14 +431,14 @@ theorem C11.pandas_eq_spec_partial (raw : RawFilter) (f : Filter) (ct : ColClass
 
 /-- the three engines keep the same rows - those satisfying `sat` - on every typed column (nulls allowed) and every
 filter whose parameter values have the column's class, for every filter type except un-anchored regex patterns and
-categorical inclusion listing `None` / nothing (guard `agreeGuard`); the pandas frame must have an object-dtype column
-index (`strIndex = false`). Arrow and pandas sides rest on the ASSUMED `ArrowSem` / `PandasSem`. -/
+categorical inclusion listing `None` / nothing (guard `agreeGuard`). Arrow and pandas sides rest on the ASSUMED
+`ArrowSem` / `PandasSem`; the pandas side is the engine as it exists since commit 15de8bc (`PandasSem.run`). -/
 theorem C11.engines_agree_partial (raw : RawFilter) (f : Filter) (ct : ColClass) (rows : List Row)
     (hp : raw.parse = .ok f) (hh : homog ct raw.col rows = true) (hg : agreeGuard ct f = true)
     (hs : ∀ v, raw.values ≠ .scalar v) :
     PyDict.doFilter raw rows = .ok (rows.filter (fun r => sat f (r.get raw.col))) ∧
     ArrowSem.doFilter raw ct rows = PyDict.doFilter raw rows ∧
-    PandasSem.doFilter raw false ct rows = PyDict.doFilter raw rows := by
+    PandasSem.run raw ct rows = PyDict.doFilter raw rows := by
   have h1 := C11.pydict_eq_spec raw f rows hp
     (fun r hr => comparableWith_of_guard hg (homog_cell hh r hr))
   exact ⟨h1, by rw [h1]; exact C11.arrow_eq_spec_partial raw f ct rows hp hh hg hs,
@@ -447,8 +447,8 @@ theorem C11.engines_agree_partial (raw : RawFilter) (f : Filter) (ct : ColClass)
 /-- pandas and PythonDict also agree on un-anchored patterns (both are `re.match`): only pyarrow searches -/
 theorem C11.regex_pandas_eq_pydict (raw : RawFilter) (rows : List Row) (hd : filterDispatch raw.ftype = .do_regex_filter)
     (hh : homog .str raw.col rows = true) :
-    PandasSem.doFilter raw false .str rows = PyDict.doFilter raw rows := by
-  unfold PandasSem.doFilter PyDict.doFilter PandasSem.doRegex PyDict.doRegex
+    PandasSem.run raw .str rows = PyDict.doFilter raw rows := by
+  unfold PandasSem.run PandasSem.doFilter PyDict.doFilter PandasSem.doRegex PyDict.doRegex
   simp only [hh, hd, Bool.not_true, Bool.false_eq_true, if_false]
   cases hv : raw.value <;> simp
 
@@ -460,12 +460,13 @@ theorem C11.regex_arrow_differs_witness :
     let f : RawFilter := { col := "x", ftype := "regex", value := .str "b" }
     ArrowSem.doFilter f .str rows = .ok [[("x", .str "abc")], [("x", .str "b")]] ∧
     PyDict.doFilter f rows = .ok [[("x", .str "b")]] ∧
-    PandasSem.doFilter f false .str rows = .ok [[("x", .str "b")]] := by
+    PandasSem.run f .str rows = .ok [[("x", .str "b")]] := by
   intro rows f; decide +kernel
 
-/-- O6: with the default (`str` dtype) column index of pandas 3 the pandas engine never returns rows: whatever the filter
-and the data, the outcome is an error (`KeyError`, or the parameter / custom-filter error raised before the lookup) -/
-theorem C11.pandas_default_index_never_filters (raw : RawFilter) (ct : ColClass) (rows : List Row) :
+/-- O6, FIXED by commit 15de8bc. Regression statement about the explicitly named pre-fix variant (`legacyKey = true`,
+`data[filter_feature.name]` on the default `str`-dtype column index): it never returned rows, whatever the filter and
+the data - the outcome was always an error (`KeyError`, or the parameter / custom-filter error raised before the lookup) -/
+theorem C11.pandas_prefix_never_filtered (raw : RawFilter) (ct : ColClass) (rows : List Row) :
     ∃ e, PandasSem.doFilter raw true ct rows = .error e := by
   unfold PandasSem.doFilter
   by_cases hh : homog ct raw.col rows = true
@@ -481,17 +482,21 @@ theorem C11.pandas_default_index_never_filters (raw : RawFilter) (ct : ColClass)
     · exact ⟨_, rfl⟩
   · simp [hh]
 
-theorem C11.pandas_default_index_witness :
-    PandasSem.doFilter { col := "x", ftype := "min", value := .int 2 } true .num [[("x", .int 1)], [("x", .int 3)]]
-      = .error .keyError ∧
+/-- the old witness of O6 (`min 2` on `[1, 3]`): the engine as it exists keeps row `3` like PythonDict; the pre-fix variant
+raised `KeyError` (the harness runs this input as a regression case that must pass) -/
+theorem C11.pandas_keyerror_fixed_witness :
+    PandasSem.run { col := "x", ftype := "min", value := .int 2 } .num [[("x", .int 1)], [("x", .int 3)]]
+      = .ok [[("x", .int 3)]] ∧
     PyDict.doFilter { col := "x", ftype := "min", value := .int 2 } [[("x", .int 1)], [("x", .int 3)]]
-      = .ok [[("x", .int 3)]] := by decide +kernel
+      = .ok [[("x", .int 3)]] ∧
+    PandasSem.doFilter { col := "x", ftype := "min", value := .int 2 } true .num [[("x", .int 1)], [("x", .int 3)]]
+      = .error .keyError := by decide +kernel
 
 /-- categorical inclusion listing `None` on a numeric column with a null: pandas drops the null row, the others keep it -/
 theorem C11.isin_null_pandas_differs_witness :
     let rows : List Row := [[("x", .rat 2)], [("x", .rat (5/2))], [("x", .null)]]
     let f : RawFilter := { col := "x", ftype := "categorical_inclusion", values := .list [.rat (5/2), .null] }
-    PandasSem.doFilter f false .num rows = .ok [[("x", .rat (5/2))]] ∧
+    PandasSem.run f .num rows = .ok [[("x", .rat (5/2))]] ∧
     PyDict.doFilter f rows = .ok [[("x", .rat (5/2))], [("x", .null)]] ∧
     ArrowSem.doFilter f .num rows = .ok [[("x", .rat (5/2))], [("x", .null)]] := by
   intro rows f; decide +kernel
@@ -501,7 +506,7 @@ theorem C11.isin_untyped_arrow_witness :
     let rows : List Row := [[("x", .str "a")], [("x", .null)]]
     let f : RawFilter := { col := "x", ftype := "categorical_inclusion", values := .list [] }
     ArrowSem.doFilter f .str rows = .error .typeError ∧ PyDict.doFilter f rows = .ok [] ∧
-    PandasSem.doFilter f false .str rows = .ok [] := by
+    PandasSem.run f .str rows = .ok [] := by
   intro rows f; decide +kernel
 
 /-- `GlobalFilter.add_filter` with a `list` of categories raises (unhashable); with a `tuple` it is accepted -/
